@@ -7,3 +7,7 @@ def run(tier, seed, build):
 
 
 WHAT = "the Hessian the specification derives"
+
+
+def replay(path, build):
+    return panelmat.replay_file("C04", path, build)
